@@ -90,7 +90,7 @@ def layout(toks, directive, style, rnd, filename="f.c", marker_p=0.12):
         elif style == "lines":
             emit("\n")
         elif style == "tabs":
-            emit(rnd.choice(["\t", "\t\t", " \t", "\n\t"]))
+            emit(rnd.choice(["\t", "\t\t", " \t", "\n\t", "\f", " \v", "\f\n", "\v\t"]))
         elif style in ("random", "marked"):
             emit(rnd.choice([" ", " ", "  ", "\n", "\t", " \t ", "\n\n   ", "\n  ", "\n  \n", "\n\t\n\t", " \n \n ", "\n   \n\t \n  "]))
         elif style == "minimal":
